@@ -21,7 +21,14 @@ namespace TAO_PEGTL_NAMESPACE::internal
          bool_and_size p = { false, in.size( 2 ) };
          if( p.size > 0 ) {
             if( in.peek_char() == '\r' ) {
-               in.bump_to_next_line( ( p.size = 1 + ( ( p.size > 1 ) && ( in.peek_char( 1 ) == '\n' ) ) ) );
+               // The line ends at the '\r' (Eol::ch): a following '\n' is consumed as the first byte of the next line,
+               // exactly as bump() and lazy tracking count it.
+               const bool crlf = ( p.size > 1 ) && ( in.peek_char( 1 ) == '\n' );
+               in.bump_to_next_line( 1 );
+               if( crlf ) {
+                  in.bump_in_this_line( 1 );
+               }
+               p.size = 1 + std::size_t( crlf );
                p.data = true;
             }
          }
